@@ -6,6 +6,8 @@
 
 use std::collections::HashMap;
 
+pub mod c07;
+
 /// A component in a box, driven through the line protocol.
 pub trait VerifBox {
     /// Execute one operation and return its canonical observation.
@@ -18,13 +20,14 @@ pub fn new_box(area: &str) -> Option<Box<dyn VerifBox>> {
         "c17" => Some(Box::new(
             crate::protocol::libp2p::kademlia::verif_c17::StoreBox::new(),
         )),
+        "c07" => Some(Box::new(c07::C07Box::new())),
         _ => None,
     }
 }
 
 /// Names of all adapters.
 pub fn areas() -> Vec<&'static str> {
-    vec!["c17"]
+    vec!["c07", "c17"]
 }
 
 /// Decode a hex string.
